@@ -1806,3 +1806,41 @@ _RT21 = {
 }
 for _p, _l in _RT21.items():
     VARIANTS.setdefault(_p, []).extend(_l)
+
+# ---- round 22: survivors of the second mutation-score round ---------------
+_SG = O + 'surfaces/surface_group.py'
+_RT22 = {
+    'C07': [
+        M('rt22-scale-solve-height-divided',
+          (O + 'optic.py', 'solve.height = solve.height * scale_factor',
+           'solve.height = solve.height / scale_factor')),
+        M('rt22-scale-field-x-from-y',
+          (O + 'optic.py', 'field.x = field.x * scale_factor',
+           'field.x = field.y * scale_factor')),
+    ],
+    'C01': [
+        M('rt22-set-radius-inf-drops-conic',
+          (O + 'optic.py', '            new_geometry.k = surface.geometry.k\n',
+           '')),
+        M('rt22-solves-applied-conditionally',
+          (O + 'solves.py', '        for solve in self.solves:\n'
+                            '            solve.apply()\n',
+           '        for solve in self.solves:\n'
+           '            if getattr(solve, \'enabled\', False):\n'
+           '                solve.apply()\n')),
+        M('rt22-pickup-add-does-not-apply',
+          (O + 'pickup.py', '        pickup.apply()\n        self.pickups.append(pickup)\n',
+           '        self.pickups.append(pickup)\n')),
+        M('rt22-remove-surface-mirror-side',
+          (_SG, '            if following.is_reflective:\n'
+                '                following.material_post = following.material_pre\n',
+           '')),
+    ],
+    'C19': [
+        M('rt22-solves-lost-on-reload',
+          (O + 'solves.py', '            solve_manager.solves.append(solve)\n',
+           '            pass\n')),
+    ],
+}
+for _p, _l in _RT22.items():
+    VARIANTS.setdefault(_p, []).extend(_l)
